@@ -96,6 +96,7 @@ AddObject ==
 
 SetAttrIn(c, e) ==
   IF e.part = "origin_reference" THEN [c EXCEPT !.origin = e.origin]
+  ELSE IF e.part = "name" THEN [c EXCEPT !.name = e.name]
   ELSE LET S == { i \in DOMAIN c.attrs : c.attrs[i].label = e.label } IN
     IF S = {}
     THEN [c EXCEPT !.attrs = Append(@, IF e.part = "value"
